@@ -172,6 +172,81 @@ def pw_task(args):
     return out
 
 
+def sym_task(args):
+    """for-all-intervals clause: the real bodies executed with *indeterminates* a, h (sympy symbols) and an uninterpreted
+    integrand F.  seminorm(f; a, a + h) must equal h^s * seminorm(f o phi; 0, 1), phi(s) = a + h s (s = 0 for H^1/2, 1/2 for
+    H^1/4), as an identity of rational functions in (a, h, F(.)): then exactness on [0,1] (Mode Q above) transports to every
+    interval, because f o phi is a polynomial of the same degree and the exact seminorms scale in the same way.  A comparison,
+    clamp or threshold on a quantity that depends on a or h cannot be evaluated on indeterminates and is reported as a failure of
+    the clause (with a double-precision replay at extreme scales)."""
+    kind, N, tier = args
+    import numpy as np
+    import sympy
+    P = exact_package()
+    a = sympy.Symbol("a", real=True)
+    h = sympy.Symbol("h", positive=True)
+    F = sympy.Function("F")
+    fv = np.frompyfunc(lambda x: F(sympy.sympify(x)), 1, 1)
+    out = []
+    if kind in ("h12", "h14"):
+        S = P.norms.Slobodeckij(N if kind == "h14" else 1, N if kind == "h12" else 1)
+        fn = S.seminorm_h_1_2 if kind == "h12" else S.seminorm_h_1_4
+        meth = "seminorm_h_1_2" if kind == "h12" else "seminorm_h_1_4"
+        name = "C14/src.norms:Slobodeckij.{}/N={}/for-all-a,h,f: value on [a,a+h] == h^{} * value of f(a + h s) on [0,1]".format(
+            meth, N, "0" if kind == "h12" else "(1/2)")
+        try:
+            lhs = fn(lambda x: fv(x), a, a + h)
+            rhs = fn(lambda s_: fv(a + h * s_), sympy.Integer(0), sympy.Integer(1))
+            d = sympy.expand(lhs - rhs) if kind == "h12" else sympy.expand(lhs / h ** 0.5 - rhs)
+            out.append((name, "sym", d == 0, None if d == 0 else str(d)[:300], None))
+        except TypeError as e:
+            out.append((name, "sym", False, "the body is not pure arithmetic in a + h*points: {}".format(str(e)[:200]), None))
+    else:
+        # curve-aware H^1/2 on a straight unit-speed segment with symbolic base point and direction == flat variant
+        S = P.norms.Slobodeckij(1, N)
+        dx, dy, px, py = sympy.symbols("dx dy px py", real=True)
+        name = ("C14/src.norms:Slobodeckij.seminorm_h_1_2/N={}/for-all-a,h,f,straight unit-speed segments: curve-aware value == flat "
+                "value".format(N))
+
+        def gamma(x):
+            return np.array([px + x * dx, py + x * dy], dtype=object)
+        try:
+            lhs = S.seminorm_h_1_2(lambda x_hat, g: fv(x_hat), a, a + h, gamma)
+            rhs = S.seminorm_h_1_2(lambda x: fv(x), a, a + h)
+            d = sympy.simplify(sympy.expand(lhs).subs(dy ** 2, 1 - dx ** 2) - rhs)
+            if d != 0:
+                d = sympy.simplify(sympy.together(lhs).subs(dy, sympy.sqrt(1 - dx ** 2)) - rhs)
+            out.append((name, "sym", d == 0, None if d == 0 else str(d)[:300], None))
+        except TypeError as e:
+            out.append((name, "sym", False, "the body is not pure arithmetic in gamma(a + h*points): {}".format(str(e)[:200]), None))
+    return out
+
+
+SCALE_REPLAY = '''
+import numpy as np
+from src.norms import Slobodeckij
+worst = 0.0
+observed = []
+for N in (5, 11, 15, 21):
+    S12, S14 = Slobodeckij(1, N), Slobodeckij(N, 1)
+    D = (N - 1) // 2
+    for a in (0.0, 0.75, -3.0):
+        for h in (1e-12, 1e-9, 1e-6, 1e-3, 2e-3, 1.0, 1e3, 1e6):
+            if abs(a) > 0 and h < 1e-6 * abs(a):
+                continue        # a + h s loses the digits of s in double precision: not the routine's fault
+            f = lambda x: ((x - a) / h) ** D + 0.5 * ((x - a) / h)
+            g = lambda s: s ** D + 0.5 * s
+            for S, meth, sc in ((S12, "seminorm_h_1_2", 1.0), (S14, "seminorm_h_1_4", h ** 0.5)):
+                v = getattr(S, meth)(f, a, a + h)
+                w = sc * getattr(S, meth)(g, 0.0, 1.0)
+                rel = abs(v - w) / abs(w)
+                if rel > 1e-9:
+                    observed.append((meth, N, a, h, float(v), float(w), rel))
+violated = len(observed) > 0
+observed = observed[:5]
+'''
+
+
 def _safe(fn_args):
     fn, args = fn_args
     try:
@@ -192,12 +267,16 @@ def run(tier, seed):
                "from (x^p-y^p)/(x-y) = sum x^i y^(p-1-i) (hand derivation, listed as trusted)",
                "Gauss-Legendre nodes come from numpy at run time and enter as the exact rationals of their doubles (hence 1e-12, not 1e-30)",
                "h**(1/2) in seminorm_h_1_4 is a floating-point power: intervals restricted to perfect-square lengths so that it is exact",
-               "all intervals [a,b]: five rational intervals are executed (translation/scaling); the for-all-intervals clause rests on "
-               "the body depending on a only through a + h*points (syntactic; Mode S lemma not yet mechanised)")
+               "all intervals [a,b]: the real bodies are also executed on indeterminates (a, h) with an uninterpreted integrand; the scaling "
+               "identity value(f; a, a+h) == h^s value(f o phi; 0, 1) is discharged by sympy (computer algebra as back end, not SMT); with "
+               "the mathematical scaling of the exact seminorms (trusted) it transports the [0,1] exactness to every interval",
+               "double-precision rounding of a + h*points for |a| >> h is outside the exact-arithmetic statement")
     chk.trust("z3 rational arithmetic", "CPython fractions / numpy object arrays")
     orders12 = list(range(1, 22, 2))
     orders14 = list(range(1, 24, 2))
     tasks = [(task, ("h12", N, tier)) for N in orders12] + [(task, ("h14", N, tier)) for N in orders14]
+    tasks += [(sym_task, ("h12", N, tier)) for N in orders12] + [(sym_task, ("h14", N, tier)) for N in orders14]
+    tasks += [(sym_task, ("curve", N, tier)) for N in ((3, 7) if tier == "quick" else (3, 7, 11, 15))]
     tasks += [(curve_task, (N, tier)) for N in ((3, 7, 11) if tier == "quick" else orders12)]
     tasks += [(pw_task, (N, tier)) for N in ((3, 7, 11, 21) if tier == "quick" else orders12)]
     chk.under_contract("src.norms:Slobodeckij.__init__", "src.norms:Slobodeckij.seminorm_h_1_2", "src.norms:Slobodeckij.seminorm_h_1_4")
@@ -216,6 +295,14 @@ def run(tier, seed):
             chk.add(ob)
             continue
         for name, kind, val, want, ref in res:
+            if kind == "sym":
+                if val:
+                    chk.add(Ob(name, DISCHARGED, backend="sympy-expand (polynomial identity in a, h over uninterpreted F)"))
+                else:
+                    ob = Ob(name, FAILED, backend="sympy-expand", detail=dict(reason=want))
+                    attach(ob, SCALE_REPLAY, bucket="sym")
+                    chk.add(ob)
+                continue
             if kind == "pos":
                 text = "(set-logic ALL)\n(assert (not (> {} 0.0)))\n(check-sat)".format(qmode.q(val))
             elif kind == "eq":
